@@ -93,6 +93,15 @@ def correspond(ctx, cases, cfgs, judge, tag, model=True, model_env=None, oracle_
                     continue
                 if any(l.startswith('@drift') for l in m):
                     ctx.drift += 1
+                if cfg == cfgs[0]:
+                    for l in m:
+                        if l.startswith('@cert ok'):
+                            ctx.count('certificates ok')
+                        elif l.startswith('@cert'):
+                            ctx.broken_ties.append({'what': 'certificate check failed: the logical content of the file the implementation wrote does not reassemble to the same bytes or is not well formed for the key list (%s)' % l,
+                                                    'case': cid, 'block': block})
+                        elif l.startswith('@big'):
+                            ctx.count('big dictionaries (model parses the implementation file)')
                 d = core.compare_case(lines, m)
                 if d is not None:
                     k, a, b = d
@@ -125,8 +134,10 @@ def j_comp(hdr, keys, ops, lines, case):
     return []
 
 # ------------------------------------------------------------------ key-set pools
-def keysets(ctx, nshaped, nsmall, big=False):
+def keysets(ctx, nshaped, nsmall, big=False, huge=False):
     out = list(gen.shaped_sets(ctx.rng, nshaped, big=big))
+    if huge:
+        out.append(gen.huge_set(ctx.rng))
     alphas = [[97, 98], [0, 97], [97, 255], [0, 255]]
     for a in alphas:
         for K in gen.small_scope_sets(a, 2, ctx.rng, nsmall):
@@ -138,13 +149,15 @@ def trie_cases(ctx, sets, make_ops, containers='svc', variants=gen.VARIANTS, bin
     i = ctx.rng.randrange(24)
     for n, (desc, K) in enumerate(sets):
         v = variants[i % len(variants)]; b = bins[(i // 4) % len(bins)]; cont = containers[(i // 8) % len(containers)]
+        if desc.startswith('huge') and 15 in variants:
+            v = 15 if n % 2 == 0 else 16          # > 32768 units: the second DAC level of the 15/16-bit variants
         i += 1
         cases.append(gen.trie_case('%s%d-%s' % (tag, n, desc), v, b, cont, K, make_ops(K), {'desc': desc}))
     return cases
 
 # ------------------------------------------------------------------ property runs
 def run_c01(ctx):
-    sets = keysets(ctx, ctx.scale(60, 400), ctx.scale(12, 127), big=(ctx.tier == 'thorough'))
+    sets = keysets(ctx, ctx.scale(60, 400), ctx.scale(12, 127), big=True, huge=(ctx.tier == 'thorough'))
     def ops(K):
         ks = K if len(K) <= 200 else ctx.rng.sample(K, 200)
         return ['STATS'] + ['L ' + hexs(k) for k in ks] + gen.id_ops(K) + ['E']
@@ -160,7 +173,7 @@ def run_c01(ctx):
     correspond(ctx, cases, ['rel', 'san'], j_trie, 'main')
 
 def run_c02(ctx):
-    sets = keysets(ctx, ctx.scale(50, 300), ctx.scale(10, 127), big=(ctx.tier == 'thorough'))
+    sets = keysets(ctx, ctx.scale(50, 300), ctx.scale(10, 127), big=True, huge=(ctx.tier == 'thorough'))
     cases = trie_cases(ctx, sets, lambda K: ['L ' + hexs(q) for q in gen.deviation_queries(K, ctx.rng, ctx.scale(120, 400))])
     # exhaustive queries up to length 3 over alphabet + foreign + NUL on small-scope sets
     ex = []
@@ -174,15 +187,30 @@ def run_c02(ctx):
         cases.append(gen.trie_case('x%d-exh' % n, v, b, c, K, ['L ' + hexs(q) for q in Q]))
     correspond(ctx, cases, ['rel', 'san'], j_trie, 'main')
 
+def j_c03(hdr, keys, ops, lines, case):
+    V = judges.judge_trie(hdr, keys, ops, lines)
+    # lockstep enumerations (two live iterators advanced alternately) are judged by the iterator machine
+    V += [('C03', 'interleaved enumeration: ' + m) for p, m in j_hist(hdr, keys, ops, lines, case)]
+    return V
+
 def run_c03(ctx):
-    sets = keysets(ctx, ctx.scale(60, 400), ctx.scale(12, 127), big=(ctx.tier == 'thorough'))
+    sets = keysets(ctx, ctx.scale(60, 400), ctx.scale(12, 127), big=True, huge=(ctx.tier == 'thorough'))
     def ops(K):
         ks = K if len(K) <= 100 else ctx.rng.sample(K, 100)
-        return ['E', 'EC'] + ['L ' + hexs(k) for k in ks] + ['USE load', 'E', 'EC', 'USE mmap %d' % ctx.rng.choice([0, 1, 4, 7]), 'E', 'EC']
-    correspond(ctx, trie_cases(ctx, sets, ops), ['rel', 'san'], j_trie, 'main')
+        o = ['E', 'EC'] + ['L ' + hexs(k) for k in ks]
+        if len(K) <= 80:
+            # two enumerations alive at once, advanced alternately; then on the loaded / mapped dictionary
+            o += ['IE 0', 'IE 1'] + ['N 0', 'N 1'] * (len(K) + 2)
+            o += ['IE 2', 'N 2', 'IR 3 -', 'N 3', 'N 2', 'N 3', 'N 2']
+        o += ['USE load', 'E', 'EC']
+        if len(K) <= 80:
+            o += ['IE 0', 'IE 1'] + ['N 0', 'N 1'] * (len(K) + 1)
+        o += ['USE mmap %d' % ctx.rng.choice([0, 1, 4, 7]), 'E', 'EC']
+        return o
+    correspond(ctx, trie_cases(ctx, sets, ops), ['rel', 'san'], j_c03, 'main')
 
 def run_c04(ctx):
-    sets = keysets(ctx, ctx.scale(50, 300), ctx.scale(10, 127), big=(ctx.tier == 'thorough'))
+    sets = keysets(ctx, ctx.scale(50, 300), ctx.scale(10, 127), big=True, huge=(ctx.tier == 'thorough'))
     def ops(K):
         o = []
         for q in gen.deviation_queries(K, ctx.rng, ctx.scale(70, 250)):
@@ -191,7 +219,7 @@ def run_c04(ctx):
     correspond(ctx, trie_cases(ctx, sets, ops), ['rel', 'san'], j_trie, 'main')
 
 def run_c05(ctx):
-    sets = keysets(ctx, ctx.scale(50, 300), ctx.scale(10, 127), big=(ctx.tier == 'thorough'))
+    sets = keysets(ctx, ctx.scale(50, 300), ctx.scale(10, 127), big=True, huge=(ctx.tier == 'thorough'))
     def ops(K):
         o = []
         qs = gen.deviation_queries(K, ctx.rng, ctx.scale(60, 200))
@@ -228,7 +256,7 @@ def j_c06(hdr, keys, ops, lines, case):
     return V
 
 def run_c06(ctx):
-    sets = keysets(ctx, ctx.scale(40, 250), ctx.scale(6, 60), big=(ctx.tier == 'thorough'))
+    sets = keysets(ctx, ctx.scale(40, 250), ctx.scale(6, 60), big=True, huge=(ctx.tier == 'thorough'))
     def ops(K):
         bat = gen.battery(K, ctx.rng, ctx.scale(12, 40)) + gen.id_ops(K)[:12] + ['E']
         o = ['STATS', 'FILE', 'TID'] + bat
@@ -249,7 +277,7 @@ def j_c07(hdr, keys, ops, lines, case):
     return V
 
 def run_c07(ctx):
-    sets = keysets(ctx, ctx.scale(50, 300), ctx.scale(10, 100), big=(ctx.tier == 'thorough'))
+    sets = keysets(ctx, ctx.scale(50, 300), ctx.scale(10, 100), big=True, huge=(ctx.tier == 'thorough'))
     def ops(K):
         bat = gen.battery(K, ctx.rng, ctx.scale(40, 120)) + gen.id_ops(K) + ['E', 'EC', 'STATS']
         return bat + ['USE load'] + bat[:60] + ['USE mmapend'] + bat[:60] + ['USE mmap 3'] + bat[:30] + ['MV'] + bat[:20]
@@ -335,13 +363,19 @@ def j_conc(hdr, keys, ops, lines, case):
     return V
 
 def run_c12(ctx):
-    sets = keysets(ctx, ctx.scale(24, 120), ctx.scale(2, 10), big=(ctx.tier == 'thorough'))
+    sets = keysets(ctx, ctx.scale(24, 120), ctx.scale(2, 10), big=True, huge=True)
+    if ctx.tier == 'thorough':
+        sets.append(gen.huge_set(ctx.rng))
     cases = []
     for n, (d, K) in enumerate(sets):
         v, b, _ = gen.pick_configs(ctx.rng, n)
+        if d.startswith('huge'):
+            v = 15 if n % 2 == 0 else 16
         src = ['built', 'load', 'mmap'][n % 3]
         nth = ctx.rng.choice([2, 3, 4, 8, 16] if ctx.tier == 'thorough' else [2, 4, 8])
         bat = gen.battery(K, ctx.rng, 25, kinds=('L', 'P', 'R', 'PC', 'RC')) + gen.id_ops(K)[:10] + ['E', 'EC', 'STATS', 'MEM', 'SAVE']
+        if len(K) > 5000:
+            bat = [o for o in bat if o not in ('E', 'EC')]
         threads = []
         for k in range(nth):
             t = list(bat); ctx.rng.shuffle(t); threads.append(t[:ctx.rng.randint(10, 60)])
@@ -557,11 +591,11 @@ def run_c16(ctx):
     correspond(ctx, cases, ['rel'], j_c16, 'main')
 
 def run_c17(ctx):
-    sets = keysets(ctx, ctx.scale(80, 500), ctx.scale(20, 127), big=(ctx.tier == 'thorough'))
+    sets = keysets(ctx, ctx.scale(80, 500), ctx.scale(20, 127), big=True, huge=(ctx.tier == 'thorough'))
     correspond(ctx, trie_cases(ctx, sets, lambda K: ['STATS']), ['rel'], j_trie, 'main')
 
 def run_c18(ctx):
-    sets = keysets(ctx, ctx.scale(30, 150), ctx.scale(4, 30), big=(ctx.tier == 'thorough'))
+    sets = keysets(ctx, ctx.scale(30, 150), ctx.scale(4, 30), big=True, huge=(ctx.tier == 'thorough'))
     cases = []
     n = 0
     for d, K in sets:
@@ -618,7 +652,7 @@ def decide(ctx, P):
                                            (ctx.proof['obligations'] > 0 and not ctx.proof['compiled']))
     rc = 0
     if unknown:
-        v = unknown[0]
+        v = shrink_trie(ctx, unknown[0], P)
         path = core.write_replay(pid, 'violation', {'property': pid, 'what': v['msg'], 'config': v.get('config'), 'case_id': v['case'],
                                                       'case': v['block'], 'implementation_output': v['impl'],
                                                       'others': [u['msg'] for u in unknown[1:20]], 'seed': ctx.seed, 'tier': ctx.tier})
@@ -662,6 +696,63 @@ def decide(ctx, P):
         rc = 1
     ctx.rc = rc
     return rc
+
+def shrink_trie(ctx, v, P):
+    """greedy minimisation of a failing trie case: keep only the violating op, then drop / shorten keys while the
+    same property is still violated (re-running the implementation, judged against the spec)"""
+    try:
+        hdr, keys, ops = core.ops_of_block(v['block'])
+        if hdr[2] != 'trie':
+            return v
+        cfg = v.get('config') or 'rel'
+        if cfg not in core.CONFIGS:
+            return v
+        pid = v['prop']
+        def violates(cands):
+            cases = [gen.trie_case('s%d' % i, hdr[3], hdr[4] == '1', hdr[5], K, O) for i, (K, O) in enumerate(cands)]
+            blocks = core.split_cases(''.join(gen.render(c) for c in cases))
+            res = core.run_driver(cfg, blocks, '%s-shrink' % ctx.pid)
+            out = []
+            for (cid, b), (K, O) in zip(blocks, cands):
+                h, k, o = core.ops_of_block(b)
+                vs = [m for p, m in j_any(h, k, o, res.get(cid, []), pid) if p == pid]
+                out.append(vs[0] if vs else None)
+            return out
+        best = (keys, ops, v['msg'])
+        # 1. single ops
+        singles = [(keys, [o]) for o in ops if o != 'FILE'][:400]
+        r = violates(singles)
+        hit = next((i for i, m in enumerate(r) if m), None)
+        if hit is not None:
+            best = (keys, singles[hit][1], r[hit])
+        # 2. drop keys
+        for _ in range(12):
+            K, O, _m = best
+            if len(K) <= 1: break
+            cands = []
+            step = max(1, len(K) // 8)
+            for i in range(0, len(K), step):
+                K2 = K[:i] + K[i + step:]
+                if K2 and spec.valid_keys(K2) == spec.valid_keys(K): cands.append((K2, O))
+            if not cands: break
+            r = violates(cands[:64])
+            hit = next((i for i, m in enumerate(r) if m), None)
+            if hit is None:
+                if step == 1: break
+                continue
+            best = (cands[hit][0], O, r[hit])
+        K, O, m = best
+        c = gen.trie_case(v['case'] + '-min', hdr[3], hdr[4] == '1', hdr[5], K, O)
+        v2 = dict(v); v2['block'] = gen.render(c); v2['msg'] = m + '  (minimised from case %s)' % v['case']; v2['minimised'] = True
+        return v2
+    except Exception as e:
+        core.log('shrink failed: %r' % e)
+        return v
+
+def j_any(hdr, keys, ops, lines, pid):
+    """the judge matching property pid, for shrinking"""
+    J = {'C06': j_c06, 'C07': j_c07, 'C13': j_hist, 'C14': j_c14, 'C15': j_c15, 'C16': j_c16}.get(pid, j_trie)
+    return J(hdr, keys, ops, lines, {'meta': {}})
 
 def log_summary(ctx, vs):
     seen = set()
